@@ -25,6 +25,7 @@ trait TypeMutVisitor {
     #[verifier::prophetic]
     spec fn fixed(&self) -> Self::Fixed;
     spec fn log(&self) -> Seq<ast::Type>;
+    spec fn out(&self) -> Seq<ast::TypeKind>;     // the kind each offered node was left with, in visit order
     spec fn inv(&self) -> bool;
     spec fn step_fn(&self) -> spec_fn(ast::Type, ast::Type) -> bool;
     fn visit(&mut self, t: &mut ast::Type)
@@ -32,6 +33,7 @@ trait TypeMutVisitor {
         ensures
             final(self).inv(),
             final(self).log() == old(self).log().push(*old(t)),
+            final(self).out() == old(self).out().push(final(t).kind),
             final(t).generic_types == old(t).generic_types,
             (old(self).step_fn())(*old(t), *final(t)),
             final(self).step_fn() == old(self).step_fn(),
